@@ -46,6 +46,8 @@ SRVREAD = dict(pkg="./server", test="TestVerifServerReadPaths", name="srvread", 
 
 FDLEAK = dict(pkg="./server", test="TestVerifServerFdLeaks", name="fdleak", diff=False)
 
+USE = dict(pkg="./cache/disk", test="TestVerifUseRefreshesRecency", name="use", diff=False)
+
 COMMON_TB = [
     "goroutine scheduling, sync.Mutex and the file system are modelled (atomic lock regions, process-visible file state), not verified",
 ]
@@ -60,7 +62,7 @@ PROPS = {
         level_text="Invariant (currentSize = reserved + sum of 4 KiB-rounded entries <= maxSize, logical total, entry count) proved by induction for every finite sequence of LRU operations of model M1; model checked against SizedLRU op by op.",
         level_note=NOTE + "concurrency enters through the atomic-lock-region assumption.", technique=TECH),
     "C05": dict(
-        lean="BR.Props.C05", runs=[LRU, DISK], trusted_base=COMMON_TB, assumptions=[],
+        lean="BR.Props.C05", runs=[LRU, DISK, USE], trusted_base=COMMON_TB, assumptions=[],
         level_text="Theorems on M1: evicted entries are a least-recently-used suffix, no eviction when the item fits, minimal eviction, move-to-front on hits, oversize rejection leaves the state unchanged.",
         level_note=NOTE + "sequential histories.", technique=TECH),
     "C17": dict(
